@@ -21,6 +21,19 @@ class C17(Spec):
             "with a watcher of $connections; plus seeded random longer sequences. After every step the reference session table is compared with the counter, the $connections value and the watcher's notifications. "
             "non-trivial = some session binds and some session leaves; distinct by trace hash")
 
+    def extra_stage(self, tier, seed):
+        """two sessions binding / re-binding at once: the counter and the $connections key must end as after one of the two orders"""
+        from vlib import sched
+        base = SETUP + ["SESS 1", "SESS 2", "SESS 3", "C 3 use-db a ta", "C 3 watch $connections"]
+        tail = ["C 3 get $connections", "C 3 use-db b tb", "C 3 get $connections"]
+        P = [("bind-vs-bind-same-db", base, (1, "use-db a ta"), (2, "use-db a ta"), tail),
+             ("bind-vs-bind-other-db", base, (1, "use-db a ta"), (2, "use-db b tb"), tail),
+             ("rebind-vs-bind", base + ["C 1 use-db a ta"], (1, "use-db b tb"), (2, "use-db a ta"), tail),
+             ("rebind-vs-rebind", base + ["C 1 use-db a ta", "C 2 use-db b tb"], (1, "use-db b tb"), (2, "use-db a ta"), tail),
+             ("bind-vs-refused-bind", base, (1, "use-db a ta"), (2, "use-db a wrong"), tail)]
+        # the counter, the mirror key and what the sessions are bound to; the order of the watcher's notifications is not part of C17
+        return sched.stage("C17", P, tier, seed, parts=("reply-A", "reply-B", "later-replies", "state"))
+
     def corpus(self):
         return [("reselect-leaks", SETUP + ["SESS 1", "C 1 use-db a ta", "C 1 use-db a ta", "CLOSE 1"]),
                 ("switch-leaks", SETUP + ["SESS 1", "C 1 use-db a ta", "C 1 use-db b tb", "CLOSE 1"])]
